@@ -305,9 +305,16 @@ def run_large(spec, res):
     names = sorted(L)
     small, huge = LARGE_N[spec['tier']]
     plan = []
+    # a fixed core of laws for every base and size, plus a seeded sample
+    core = [x for x in names if x in (
+        'batch2-unbatch=id', 'concat-split2=id', 'concat-split3=id', 'indexlist-compose',
+        'map-slice-0', 'map-slice-3', 'slice-compose-0', 'slice-compose-3',
+        'slice-compose-10', 'slice-compose-24', 'slice-compose-27', 'map-batch2',
+        'tile2=concat', 'map-shuffle-1', 'map-sort-False')]
     for n in small:
         for bname in LARGE_BASES:
-            for law in rng.sample(names, min(len(names), spec['laws_small'])):
+            extra = rng.sample(names, min(len(names), spec['laws_small']))
+            for law in core + [x for x in extra if x not in core]:
                 plan.append((n, bname, law))
     cheap = [x for x in names if x.startswith(('slice-compose', 'concat-split', 'map-slice',
                                                'batch', 'tile2', 'indexlist'))]
